@@ -34,7 +34,15 @@ def reduce_matvec(e, v):
     """
     Af = ca.Function("Af", [ca.MX()], [ca.jacobian(e, v)])
     A = Af(ca.DM())
-    return ca.reshape(ca.mtimes(A, v), e.shape)
+    reduced = ca.reshape(ca.mtimes(A, v), e.shape)
+
+    # Keep the part of e that does not depend on v (e is affine, not necessarily linear)
+    constant = ca.substitute(e, v, ca.MX.zeros(v.sparsity()))
+    if not ca.symvar(constant):
+        constant = ca.evalf(constant)
+        if constant.is_zero():
+            return reduced
+    return reduced + constant
 
 
 def substitute_in_external(expr, symbols, values):
